@@ -266,6 +266,8 @@ fn eval_c02_c03(job: &Job) -> JobResult {
         // attribution of a missing outcome (used when the known-findings list is generated): is it
         // also missing from RC11 restricted to "an RMW / failing CAS reads the newest store"?
         let mut restricted: Option<rc11::Rc11Result> = None;
+        let mut restricted_sc: Option<rc11::Rc11Result> = None;
+        let mut restricted_both: Option<rc11::Rc11Result> = None;
         for o in &rc.outcomes {
             if col.outcomes.contains_key(o) {
                 res.traces_validated += 1;
@@ -276,6 +278,20 @@ fn eval_c02_c03(job: &Job) -> JobResult {
                     let r = restricted.get_or_insert_with(|| rc11::enumerate(p, Variant::Rc11RmwNewest, RC_MAX_STATES));
                     if !r.truncated && !r.outcomes.contains(o) {
                         cause = "rmw-reads-only-newest-store";
+                    }
+                }
+                // D16: also missing when a SeqCst load cannot read a SeqCst store that has a
+                // newer SeqCst store; or only when both restrictions apply
+                let has_sc_load = p.threads.iter().flatten().any(|x| matches!(x.k, K::Load { mo: MO::Sc, .. }));
+                if cause == "unattributed" && has_sc_load {
+                    let r = restricted_sc.get_or_insert_with(|| rc11::enumerate(p, Variant::Rc11ScLoadNewest, RC_MAX_STATES));
+                    if !r.truncated && !r.outcomes.contains(o) {
+                        cause = "seqcst-load-refuses-older-seqcst-store";
+                    } else if has_rmw {
+                        let r = restricted_both.get_or_insert_with(|| rc11::enumerate(p, Variant::Rc11RmwAndScNewest, RC_MAX_STATES));
+                        if !r.truncated && !r.outcomes.contains(o) {
+                            cause = "rmw-newest-and-seqcst-load-rules-together";
+                        }
                     }
                 }
                 res.violations.push(viol("missing_outcome", fmt_outcome(o), "RC11-consistent outcome (po ∪ rf acyclic) is produced by some iteration".into(), format!("{} iterations, {} outcomes", col.iters, col.outcomes.len()), json!({"loom_outcomes": outs_json(col.outcomes.keys()), "attribution": cause})));
